@@ -123,6 +123,9 @@ func c01() []*Ob {
 					}
 				}
 			}},
+		{Prop: "C01", ID: "C01.10", Engine: "ORDER", Floor: 1,
+			Desc:  "a bulk counts as indexed only when its statistics are published: in appendWorker Active.UpdateStats precedes task.Wg.Done (shared rule with C07.3) — replay and sealing wait on that wait group and then read DocsTotal / From / To: a fraction whose only bulk is not yet counted is removed as empty on restart, or sealed with a range that excludes the bulk",
+			Check: func(c *Ctx) { indexPublicationOrder(c) }},
 		{Prop: "C01", ID: "C01.2", Engine: "ORDER+ACK+DOM", Floor: 2,
 			Desc: "FileWriter.Write: WriteAt precedes enqueueing the sync request, which precedes the wait; the only success return that skips the wait is under skipSync; otherwise the returned error is the value received from the sync loop",
 			Check: func(c *Ctx) {
